@@ -129,7 +129,8 @@ def spellings(fam, tx, env):
         return [("typing.Union[A,None]", typing.Union[a, None]), ("Optional[A]", typing.Optional[a]), ("A|None", a | None),
                 ("None|A", None | a), ("(A, None)", (a, type(None))), ("typing.Union[None,A]", typing.Union[None, a])]
     if fam == "any":
-        return [("object", object), ("missing", MISSING_ANN), ("typing.Any", typing.Any)]
+        return [("object", object), ("missing", MISSING_ANN), ("typing.Any", typing.Any),
+                ("Annotated[Any,'m']", typing.Annotated[typing.Any, "m"]), ("Annotated[object,'m']", typing.Annotated[object, "m"])]
     if fam == "annotated":
         a = A(tx)
         return [("A", a), ("Annotated[A,'m']", typing.Annotated[a, "m"]), ("Annotated[A,int,3]", typing.Annotated[a, int, 3])]
